@@ -79,7 +79,7 @@ inductive Ret where
   | stream (id : Nat) (ok : Bool)     -- GetStream
   | cleared (b : Bool)                -- Clear
   | avail (n : Int)                   -- Available
-  | crashIndex                        -- Clear: index out of range
+  | crashIndex                        -- Clear: index out of range (never produced since the fix of KF-C08-3)
   | crashNegative                     -- Clear: panic("negative streams inuse")
 deriving Repr, DecidableEq
 
@@ -157,10 +157,14 @@ def tstep (sh : Shared) (pc : PC) : Shared × PC × Option Ret :=
       (sh, r.1, r.2)
   | .g7 id => ({ sh with inuse := sh.inuse + 1 }, .idle, some (.stream id true))
   | .c8 id =>
+      -- `if stream < 0 || stream >= s.NumStreams { return false }` (ids are `Nat` here: the negative half is
+      -- `clearNeg`); `NumStreams = 64 * n`, so `stream < NumStreams` iff `stream / 64 < n`. The guard is thread-local:
+      -- for an id beyond the capacity the call returns without any atomic operation (modelled as a step that
+      -- leaves the shared state alone; the driver fuses it with the preceding step for the lock-step observations)
       if bucketOffset id < n then
         let b := sh.words.getD (bucketOffset id) 0
         if b &&& mask id ≠ mask id then (sh, .idle, some (.cleared false)) else (sh, .c9 id b, none)
-      else (sh, .idle, some .crashIndex)
+      else (sh, .idle, some (.cleared false))   -- `stream >= s.NumStreams`: not a stream id of this generator (KF-C08-3 fix)
   | .c9 id b =>
       if sh.words.getD (bucketOffset id) 0 = b then
         ({ sh with words := sh.words.set (bucketOffset id) (b &&& ~~~ mask id) }, .c11 id, none)
@@ -190,18 +194,12 @@ def getStream (sh : Shared) : Shared × Option Ret := seqOp sh .get
 def clear (sh : Shared) (id : Nat) : Shared × Option Ret := seqOp sh (.clear id)
 def available (sh : Shared) : Int := (64 * sh.words.length : Nat) - sh.inuse - 1
 
-/-- `Clear(stream)` for a NEGATIVE argument `stream = -k` (`k ≥ 1`), sequentially, as the unchanged code behaves (the
-    argument is an `int` and is not checked; proposed finding KF-C08-3): `bucketOffset(-k) = -(k/64)` (Go's division
-    truncates toward zero) — for `k ≥ 64` an index panic; for `1 ≤ k ≤ 63` word 0 is loaded,
-    `streamOffset(-k) = 64 - uint64(-k % 64) - 1 = 63 + k ≥ 64` (uint64 arithmetic), so the mask `uint64(1) << (63+k)`
-    is 0, the "already cleared" guard `bucket&mask != mask` is false, the CAS writes the word back unchanged and the
-    in-use counter is decremented: `true` (or the 'negative streams inuse' panic) with no bit changed. Hand-modelled,
-    tied by the sequential differential run (`n<k>` tokens); ids of every other definition and theorem are `Nat`. -/
-def clearNeg (sh : Shared) (k : Nat) : Shared × Option Ret :=
-  if 64 ≤ k then (sh, some .crashIndex)
-  else
-    let v := sh.inuse - 1
-    ({ sh with inuse := v }, some (if v < 0 then .crashNegative else .cleared true))
+/-- `Clear(stream)` for a NEGATIVE argument `stream = -k` (`k ≥ 1`): since the fix of KF-C08-3 the guard
+    `if stream < 0 || stream >= s.NumStreams { return false }` answers false and touches nothing. (Before the fix:
+    `Clear(-1..-63)` answered true and decremented the in-use counter without clearing a bit — `bucketOffset(-k) = 0`,
+    `streamOffset(-k) = 63 + k ≥ 64`, mask 0 —, `Clear(-64..)` panicked with an index error, as did `Clear(id)` for
+    `id ≥ NumStreams`.) Tied by the `n<k>` tokens of the seq / smon lines. -/
+def clearNeg (sh : Shared) (_k : Nat) : Shared × Option Ret := (sh, some (.cleared false))
 
 /-! ### the concurrent machine: k threads, one action = one atomic operation of one thread -/
 
@@ -327,13 +325,11 @@ def specStep (cap : Nat) (tbl : Array Bool) (cnt : Nat) : Op → Option Ret → 
       -- exhaustion is reported only when every non-reserved id is handed out
       if id = 0 ∧ cnt = cap - 1 then some { tbl := tbl, cnt := cnt } else none
   | .clear id, some (.cleared b) =>
-      -- releasing reports whether the id was in use; releasing a free id changes nothing
-      if id < cap ∧ b = tbl.getD id false then
+      -- releasing reports whether the id was in use; releasing a free id — or something that is not an id of the
+      -- generator at all (`id ≥ cap`: never handed out, `tbl.getD` is false there) — reports false and changes nothing
+      if b = tbl.getD id false then
         some { tbl := tbl.setIfInBounds id false, cnt := if b then cnt - 1 else cnt }
       else none
-  | .clear id, some .crashIndex =>
-      -- (what the code does for an id beyond the capacity: index panic, nothing changes)
-      if cap ≤ id then some { tbl := tbl, cnt := cnt } else none
   | .avail, some (.avail v) =>
       if v = ((cap - 1 - cnt : Nat) : Int) then some { tbl := tbl, cnt := cnt } else none
   | _, _ => none
@@ -379,7 +375,7 @@ def lpOf (sh : Shared) : PC → List (Op × Option Ret)
   | .c8 id =>
       if bucketOffset id < sh.words.length then
         (if sh.words.getD (bucketOffset id) 0 &&& mask id ≠ mask id then [(.clear id, some (.cleared false))] else [])
-      else [(.clear id, some .crashIndex)]
+      else [(.clear id, some (.cleared false))]
   | .c10 id =>
       if sh.words.getD (bucketOffset id) 0 &&& mask id ≠ mask id then [(.clear id, some (.cleared false))] else []
   | _ => []
@@ -419,6 +415,9 @@ calls. `HOp.setOffset v` is that preset (the value is truncated to the 32 bits o
 inductive HOp where
   | op (o : Op)
   | setOffset (v : Nat)
+  /-- `Clear(-k)`, `k ≥ 1`: a release of something that is not an id of the generator. In the answer trace it is
+      recorded as a `Clear` of the non-id `NumStreams + k` (the specification knows "not in 0..cap-1" only) -/
+  | clearNeg (k : Nat)
 deriving Repr, DecidableEq
 
 def presetOffset (sh : Shared) (v : Nat) : Shared := { sh with offset := v % 4294967296 }
@@ -428,11 +427,18 @@ def hTrace : Shared → List HOp → List (Op × Option Ret × Int)
   | _, [] => []
   | sh, .op op :: ops => (op, (seqOp sh op).2, available (seqOp sh op).1) :: hTrace (seqOp sh op).1 ops
   | sh, .setOffset v :: ops => hTrace (presetOffset sh v) ops
+  | sh, .clearNeg k :: ops =>
+      (.clear (64 * sh.words.length + k), (clearNeg sh k).2, available (clearNeg sh k).1) :: hTrace (clearNeg sh k).1 ops
 
 /-- `seqMon` for histories with presets (what the driver runs for `smon` lines) -/
 def seqMonH (cap : Nat) : Shared → Array Bool → Nat → List HOp → Bool
   | _, _, _, [] => true
   | sh, tbl, cnt, .setOffset v :: ops => seqMonH cap (presetOffset sh v) tbl cnt ops
+  | sh, tbl, cnt, .clearNeg k :: ops =>
+    match specStep cap tbl cnt (.clear (64 * sh.words.length + k)) (clearNeg sh k).2 with
+    | some st' =>
+      decide (available (clearNeg sh k).1 = ((cap - 1 - st'.cnt : Nat) : Int)) && seqMonH cap (clearNeg sh k).1 st'.tbl st'.cnt ops
+    | none => false
   | sh, tbl, cnt, .op op :: ops =>
     match specStep cap tbl cnt op (seqOp sh op).2 with
     | some st' =>
